@@ -465,17 +465,12 @@ harnesses! {
     c05_bin_logic { prop: C05, feat: "c05", tier: quick, mode: full, unwind: 3, caps: "run=2,clone=1,drop=2" } => |s| c05::ev_bin(s, 16, 18, 64);
     c05_bin_mul24 { prop: C05, feat: "c05", tier: thorough, mode: full, unwind: 3, caps: "run=2,clone=1,drop=2" } => |s| c05::ev_bin(s, 2, 3, 24);
     c05_bin_div24 { prop: C05, feat: "c05", tier: thorough, mode: full, unwind: 3, caps: "run=2,clone=1,drop=2" } => |s| c05::ev_bin(s, 3, 4, 24);
-    c05_bin_rem24 { prop: C05, feat: "c05", tier: thorough, mode: full, unwind: 3, caps: "run=2,clone=1,drop=2" } => |s| c05::ev_bin(s, 4, 5, 24);
-    c05_bin_mul64 { prop: C05, feat: "c05", tier: thorough, mode: full, unwind: 3, caps: "run=2,clone=1,drop=2" } => |s| c05::ev_bin(s, 2, 3, 64);
     c05_bin_div64 { prop: C05, feat: "c05", tier: thorough, mode: full, unwind: 3, caps: "run=2,clone=1,drop=2" } => |s| c05::ev_bin(s, 3, 4, 64);
-    c05_bin_rem64 { prop: C05, feat: "c05", tier: thorough, mode: full, unwind: 3, caps: "run=2,clone=1,drop=2" } => |s| c05::ev_bin(s, 4, 5, 64);
     c05_un { prop: C05, feat: "c05", tier: quick, mode: full, unwind: 3, caps: "run=2,clone=1,drop=2" } => |s| c05::ev_un(s);
     c05_func_sel { prop: C05, feat: "c05", tier: quick, mode: full, unwind: 7, caps: "run=2,clone=1,drop=2" } => |s| c05::ev_func(s, 0, 7, 64);
     c05_func_exp2 { prop: C05, feat: "c05", tier: quick, mode: full, unwind: 7, caps: "run=2,clone=1,drop=2" } => |s| c05::ev_func(s, 7, 8, 64);
     c05_func_page_log2 { prop: C05, feat: "c05", tier: quick, mode: full, unwind: 10, caps: "run=2,clone=1,drop=2" } => |s| c05::ev_func(s, 8, 10, 8);
     c05_ident { prop: C05, feat: "c05", tier: quick, mode: full, unwind: 3, caps: "run=1,clone=1,drop=1" } => |s| c05::ev_ident(s);
-    c05_nest_left { prop: C05, feat: "c05", tier: thorough, mode: full, unwind: 3, caps: "run=3,clone=1,drop=3" } => |s| c05::ev_nest(s, 0);
-    c05_nest_right { prop: C05, feat: "c05", tier: thorough, mode: full, unwind: 3, caps: "run=3,clone=1,drop=3" } => |s| c05::ev_nest(s, 1);
     // ---- C06 (+ C02-L2): data directive conversion layer
     // ---- C07: HEX record construction
     // ---- C10: symbol tables of the real CommonContext
@@ -624,6 +619,5 @@ harnesses! {
     c10_alias_ri_op18 { prop: C10, feat: "c10", tier: thorough, mode: leaf, unwind: 5, caps: "drop=1" } => |s| c10::bind_alias(s, 18, 19, 2);
     c10_alias_ri_op19 { prop: C10, feat: "c10", tier: thorough, mode: leaf, unwind: 5, caps: "drop=1" } => |s| c10::bind_alias(s, 19, 20, 2);
     c10_alias_ri_op20 { prop: C10, feat: "c10", tier: thorough, mode: leaf, unwind: 5, caps: "drop=1" } => |s| c10::bind_alias(s, 20, 21, 2);
-    c07_hex_4k { prop: X07, feat: "c07", tier: thorough, mode: hex, unwind: 262, caps: "" } => |s| c07::hex_big(s, 4113);
     // (C08: c08.rs is kept for the record - the 3-line instance reached 8 GB after 11 min and is not registered)
 }
